@@ -108,6 +108,25 @@ func genArMember(t *rapid.T, label string) ArMember {
 	m := ArMember{}
 	nl := rapid.SampledFrom([]int{1, 2, 5, 8, 12, 15, 16, 16}).Draw(t, label+"nl")
 	m.Name = genFromAlphabet(t, label+"name", arNameAlphabet, nl, nl)
+	if nl >= 2 && rapid.IntRange(0, 5).Draw(t, label+"oddname") == 0 {
+		// the name column is padded with blanks on the right and nothing else: a blank in front
+		// or inside, a tab at the end, a '/' inside are part of the name
+		b := []byte(m.Name)
+		mid := (len(b) - 1) / 2 // never the last byte: a blank or '/' there is padding / the terminator
+		switch rapid.IntRange(0, 3).Draw(t, label+"odd") {
+		case 0:
+			b[0] = ' '
+		case 1:
+			b[mid] = ' '
+		case 2:
+			b[len(b)-1] = '\t'
+		default:
+			if mid > 0 { // a leading '/' is GNU ar's own name space
+				b[mid] = '/'
+			}
+		}
+		m.Name = string(b)
+	}
 	m.SlashTerm = rapid.Bool().Draw(t, label+"slash")
 	m.MTime = int64(rapid.Uint64Range(0, 999999999999).Draw(t, label+"mtime"))
 	m.UID = int64(rapid.IntRange(0, 999999).Draw(t, label+"uid"))
